@@ -20,7 +20,8 @@ RULE = ('pairs (source, target) of geometry recipes (gens/geo.py: rectangular, B
         'copy of the same geometry with preserve_generation_totals and rename_generators on/off, with and without '
         'top/bottom-generator lists. Non-trivial = geometries differ (or atmosphere types differ) and at least one block needed the '
         'above-surface correction or a non-identity column/layer choice; for models: at least one generator; distinct = case JSON.'
-        ' Also: sources that served in a mapping and were then translated / rotated in place; top / bottom generators named after another column; incon variables as numpy arrays in half of the cases.')
+        ' Also: sources that served in a mapping and were then translated / rotated in place; top / bottom generators named after another column; incon variables as numpy arrays in half of the cases.'
+        ' Rounds 7-10: source states held reversed / rotated; layer centres off the mid-point, one exactly 0.0; defaulted atmosphere states edited in place before a second transfer; copies shifted by about one column width; block mapping passed without the column mapping; a source without generators transferred into a used target.')
 ASSUMPTIONS = ['"corresponding atmosphere block": single->single; per-column->per-column: the block over the nearest source column; '
                'single source->per-column target: the single source block; per-column source->single target: any atmosphere block of the source',
                'when the source has no atmosphere blocks the value for an atmosphere block is not judged (only that the call returns a total map)',
